@@ -29,11 +29,18 @@ func levelsOf(tier string) []int {
 // rest is deviation-bounded.
 func writePhase(x *explore.Ctx, cfg WConfig, prog int, tier string, mask *MaskRec, onErr func(*WEnv, *APICall)) *WEnv {
 	big := tier == "thorough"
-	cfg.Pool = x.Choose(2, "pool") == 1
+	if cfg.ForcePool {
+		cfg.Pool = true
+	} else {
+		cfg.Pool = x.Choose(2, "pool") == 1
+	}
 	e := NewWEnv(x, cfg, big)
 	e.Mask = mask
 	if onErr != nil {
 		e.OnErr = func(ac *APICall) { onErr(e, ac) }
+	}
+	if wpOnEnv != nil {
+		wpOnEnv(e)
 	}
 	levels := levelsOf(tier)
 	n := e.Sizes[x.Pick(len(e.Sizes), "size")]
@@ -45,6 +52,9 @@ func writePhase(x *explore.Ctx, cfg WConfig, prog int, tier string, mask *MaskRe
 		pfx := fmt.Sprintf("m%d.", mi)
 		p, sz := prog, n
 		pick := x.Pick
+		if cfg.Lean {
+			pick = x.Choose
+		}
 		if mi > 0 {
 			if x.Choose(2, pfx+"more") == 0 {
 				break
@@ -53,10 +63,14 @@ func writePhase(x *explore.Ctx, cfg WConfig, prog int, tier string, mask *MaskRe
 			sz = e.Sizes[x.Choose(len(e.Sizes), pfx+"size")]
 			pick = x.Choose
 		}
-		mt := []int{websocket.TextMessage, websocket.BinaryMessage}[x.Choose(2, pfx+"type")]
-		pat := x.Choose(NPatterns, pfx+"pattern")
+		mt, pat := websocket.BinaryMessage, 0
+		if !cfg.Lean {
+			mt = []int{websocket.TextMessage, websocket.BinaryMessage}[x.Choose(2, pfx+"type")]
+			pat = x.Choose(NPatterns, pfx+"pattern")
+		}
 		if cfg.Compress {
-			if li := x.Choose(len(levels), pfx+"level"); li != 0 || mi > 0 {
+			if cfg.Lean {
+			} else if li := x.Choose(len(levels), pfx+"level"); li != 0 || mi > 0 {
 				lv := levels[li]
 				if err := e.C.SetCompressionLevel(lv); err != nil {
 					x.Failf("C01:setlevel", "SetCompressionLevel(%d): %v", lv, err)
